@@ -1133,8 +1133,25 @@ static void shrink(tape_t *best, const char *cls, double deadline)
 					return;
 				uint32_t lo = a > chunk + 1 ? a - chunk : 1;
 				tape_without_segs(&cand, best, lo, a);
-				if (try_cand(best, &cand, cls))
+				if (try_cand(best, &cand, cls)) {
 					progress = true;
+				} else if (cand.nseg > 0) {
+					/* many harnesses keep an element count in the header (segment 0):
+					 * dropping k element segments usually needs that count lowered by k */
+					uint32_t k = a - lo, hdr = seg_end(&cand, 0);
+					for (uint32_t j = 0; j < hdr && j < 16; j++) {
+						if (cand.v[j] < k)
+							continue;
+						if (now_s() > deadline)
+							return;
+						cand.v[j] -= k;
+						if (try_cand(best, &cand, cls)) {
+							progress = true;
+							break;
+						}
+						cand.v[j] += k;
+					}
+				}
 				a = lo;
 			}
 			if (chunk <= 1)
